@@ -280,6 +280,10 @@ def check_seq(case):
     bits = ''
     exp_reads = []
     starts = {}         # op index -> (bit offset, index into exp_reads) of an unsigned field
+    # every other case goes through the typed entry points write(value, type, nbits) / read(type, nbits)
+    generic = int(case.key()[:2], 16) % 2 == 1
+    if generic:
+        out.classes.append('typed_entry_points')
     try:
         for iop, op in enumerate(case.ops):
             t, n, v = op
@@ -308,25 +312,25 @@ def check_seq(case):
                 starts[iop] = (len(bits), len(exp_reads))
                 if bits and len(bits) % 8:
                     out.nontrivial = True
-                w.write_uint(v, n)
+                w.write(v, 'uint', n) if generic else w.write_uint(v, n)
                 bits += ubits(v, n)
                 exp_reads.append((t, n, v))
             elif t == 'int':
-                w.write_int(v, n)
+                w.write(v, 'int', n) if generic else w.write_int(v, n)
                 bits += ('1' if v < 0 else '0') + ubits(abs(v), n - 1)
                 exp_reads.append((t, n, v))
             elif t == 'bool':
-                w.write_bool(v)
+                w.write(v, 'bool', 1) if generic else w.write_bool(v)
                 bits += '1' if v else '0'
                 exp_reads.append((t, 1, v))
             elif t == 'bin':
-                w.write_bin(v)
+                w.write(v, 'bin', n) if generic else w.write_bin(v)
                 bits += v
                 exp_reads.append((t, n, v))
             elif t in ('bytes', 'text'):
                 raw = v.encode('latin-1') if t == 'text' else v
                 exp = raw[:n] + b' ' * max(0, n - len(raw))
-                ret = w.write_bytes(v, n)
+                ret = w.write(v, 'bytes', 8 * n) if generic else w.write_bytes(v, n)
                 if ret != exp:
                     out.fail('write_bytes returned a value that is not padded/truncated to the width', got=ret, expected=exp)
                 bits += ''.join(ubits(c, 8) for c in exp)
@@ -354,7 +358,9 @@ def check_seq(case):
         r = get_bit_reader(data)
         pos = 0
         for t, n, v in exp_reads:
-            if t == 'uint':
+            if generic and not (t == 'bin' and not n):
+                got = r.read(t, 8 * n if t == 'bytes' else n)
+            elif t == 'uint':
                 got = r.read_uint(n)
             elif t == 'int':
                 got = r.read_int(n)
